@@ -104,6 +104,18 @@ Fixpoint rt_in (t : ty) (v : value) : bool :=
 Definition rt_test (a : arm) (v : value) : bool :=
   match a with ALit l => lit_matches l v | ATy t => rt_in t v | AWild => true end.
 
+(* every use of the scrutinee variable is wrapped as the class of its static type (codegen.rs emit_expr: an accessor of type
+   Bool | Nat | Int | Float | Str after derefine is emitted as `C(x)`): a Bool used as a Nat / Int is the integer, the integers
+   0 and 1 used as a Bool are the booleans *)
+Definition rt_wrap (t : ty) (v : value) : value :=
+  match derefine t with
+  | TMono c =>
+    if (c =? id_Nat) || (c =? id_Int) then match v with VBool b => VInt (if b then 1 else 0) | _ => v end
+    else if c =? id_Bool then match v with VInt z => VBool (negb (z =? 0)) | _ => v end
+    else v
+  | _ => v
+  end.
+
 (* the arm whose body runs: the first one whose test succeeds; the test of the last arm is not consulted *)
 Fixpoint rt_select_from (i : Z) (arms : list arm) (v : value) : Z :=
   match arms with
@@ -130,7 +142,7 @@ Fixpoint mentions_bool (t : ty) : bool :=
   | _ => false
   end.
 Definition known_bool_int (arms : list arm) (v : value) : bool :=
-  match v with
-  | VInt z => ((z =? 0) || (z =? 1)) && existsb (fun a => match a with ATy t => mentions_bool t | _ => false end) arms
-  | _ => false
+  match val_int v with
+  | Some z => ((z =? 0) || (z =? 1)) && existsb (fun a => match a with ATy t => mentions_bool t | _ => false end) arms
+  | None => false
   end.
